@@ -343,7 +343,7 @@ def strategy():
         top = [n["key"] for n in doc["body"] if n["t"] == "assign"]
         blocked = {n.get("key") for n in doc["body"] if n["t"] != "assign"} | {"META"}
         mkeys = [k for k, _ in doc["meta"]]
-        fresh = ["NEWKEY", "Z9", "added.key"]
+        fresh = ["NEWKEY", "Z9", "added.key", "PATTERN", "REGEX"]  # (PATTERN/REGEX: the always-quoted keys)
         reqs = []
         for items, mut in picks:
             req = []
